@@ -91,6 +91,33 @@ def string_comparators_reach_the_end(P, R, rule='C19.GRD.4'):
     R.floor(rule, 1)
 
 
+def accessors_and_delegates(P, R, rule='C19.TAB.2'):
+    """(a) Stepping: where set_next / set_prev are functions (they are macros on the pinned tree), each returns the link
+    of its own name.  (b) The stock string comparator delegates to the C library; if the program defines a function of
+    that name itself (a "compat" fallback that shadows libc for every module), the order of every string-keyed set is
+    whatever that function computes - which these rules cannot decide: analysis broken, not a pass."""
+    n = 0
+    for nm, want, other in (('set_next', 'next', 'prev'), ('set_prev', 'prev', 'next')):
+        for f in [g for g in P.fns.values() if g.name == nm] + list(P.__dict__.get('folded_fns', {}).get(nm, ())):
+            for t in f.sites():
+                if t.ev['k'] == 'ret' and t.ev.get('val') is not None and const_of(t.ev['val']) != 0:
+                    fields = {x.get('field') for x in walk(t.ev['val']) if x.get('k') == 'mem'}
+                    n += 1
+                    R.ob(rule, want in fields and other not in fields, t, '%s returns the %s link (%s)' % (nm, want, sx(t.ev['val'])), key='accessor:%s' % nm)
+    for f in P.unit_fns(UNIT):
+        if not f.name.startswith('set_compare_'):
+            continue
+        for t in f.calls():
+            c = t.ev.get('callee')
+            if c in ('strcasecmp', 'strcmp', 'strncasecmp', 'strncmp', 'memcmp', 'strcoll'):
+                own = [g for g in P.callees(t, True) if not g.unit.startswith('tests/')]
+                if own:
+                    raise AnalysisBroken('%s delegates to %s, which the program defines itself (%s): the order of string-keyed sets is no longer the C library\'s' % (f.name, c, own[0].unit))
+                n += 1
+                R.ob(rule, True, t, '%s delegates to the C library\'s %s' % (f.name, c), key='delegate:%s' % c, nontrivial=False)
+    R.floor(rule, 1, 'library delegates of the stock comparators')
+
+
 def comparators(P, R, rule='C19.ARITH.1'):
     fns = {}
     for f in P.unit_fns(UNIT):
@@ -713,4 +740,5 @@ def run(P, R, tier):
     rules.narrowing_fields(P, R, 'C19.WID.1', ('src/set.c',))
     rules.counter_widths(P, R, 'C19.WID.2', recs=('set',))
     string_comparators_reach_the_end(P, R)
+    accessors_and_delegates(P, R, 'C19.TAB.3')
     return EXPLANATION, ASSUMPTIONS
